@@ -1053,6 +1053,9 @@ w('C10', 'BENIGN: deposit sequence attribute through fmt.Sprintf("%d")', '',
 
 wseed('C01f','C01.R9'); wseed('C02f','C02.R8'); wseed('C03f','C03.R3'); wseed('C04f','C04.R8'); wseed('C05f','C05.R7')
 wseed('C06f','C06.R5'); wseed('C07f','C07.R1'); wseed('C08f','C08.R6'); wseed('C09f','C09.R7'); wseed('C10f','C10.R4')
+
+wseed('C11f','C11.R6'); wseed('C12f','C12.R4'); wseed('C13f','C13.R2'); wseed('C14f','C14.R2'); wseed('C15f','C15.R4')
+wseed('C16f','C16.R3'); wseed('C17f','C17.R1'); wseed('C18f','C18.R3'); wseed('C19f','C19.R6'); wseed('C20f','C20.R1')
 #@@MORE@@
 for p,l in W.items():
     json.dump(l, open(os.path.join(HERE,p+'.json'),'w'), indent=1)
